@@ -106,7 +106,7 @@ def audit(prop, reg):
     thms = reg.get("theorems", [])
     if not thms:
         return 0, ["no theorems registered"], []
-    src = "import " + reg["module"] + "\n" + "".join("#print axioms %s\n" % t["name"] for t in thms)
+    src = "".join("import %s\n" % m for m in reg.get("modules", [reg["module"]])) + "".join("#print axioms %s\n" % t["name"] for t in thms)
     os.makedirs(os.path.join(WORK, "audit"), exist_ok=True)
     f = os.path.join(WORK, "audit", prop + ".lean")
     open(f, "w").write(src)
@@ -294,7 +294,14 @@ def main(argv):
     if rc_drv != 0:
         rp = write_replay(prop, "model", "the Lean model/driver no longer builds (regenerated constants?)", [], {"log": out_drv[-3000:]})
         violations.append(("model", "model does not build", rp, False))
-    rc_thm, out_thm = lake_build([reg["module"]])
+    if prop == "C11":
+        # the generator table is regenerated from the compiled crate (N = 64 quick, 256 thorough)
+        rc_t, out_t = run([hbin, "gentable", "256" if a.tier == "thorough" else "64"])
+        tpath = os.path.join(LEAN, "ZkModel", "Generated", "GeneratorTable.lean")
+        if rc_t == 0 and ((not os.path.exists(tpath)) or open(tpath).read() != out_t):
+            open(tpath, "w").write(out_t)
+            notes.append("GeneratorTable.lean regenerated")
+    rc_thm, out_thm = lake_build(reg.get("modules", [reg["module"]]))
     proof_problems = []
     if rc_thm != 0:
         proof_problems.append("lake build %s failed: %s" % (reg["module"], out_thm[-1500:]))
@@ -302,11 +309,13 @@ def main(argv):
     if rc_thm == 0:
         okc, aud_problems, details = audit(prop, reg)
     proof_problems += aud_problems
-    forb = grep_forbidden(reg["module"])
+    forb = []
+    for mm in reg.get("modules", [reg["module"]]):
+        forb += grep_forbidden(mm)
     if forb:
         proof_problems.append("forbidden constructs: " + "; ".join(forb[:5]))
     if a.tier == "thorough" and rc_thm == 0:
-        rc_lc, out_lc = run(["lake", "env", "leanchecker", reg["module"]], cwd=LEAN, timeout=3000)
+        rc_lc, out_lc = run(["lake", "env", "leanchecker"] + reg.get("modules", [reg["module"]]), cwd=LEAN, timeout=3000)
         if rc_lc != 0:
             proof_problems.append("leanchecker rejected %s: %s" % (reg["module"], out_lc[-500:]))
         else:
@@ -431,7 +440,9 @@ def main(argv):
             "obligations": max(obligations, 1), "discharged": okc,
             "checker_cmd": "cd /verif/lean && lake build %s && lake env lean <audit file with #print axioms per theorem>%s" % (reg["module"], " && lake env leanchecker " + reg["module"] if a.tier == "thorough" else ""),
             "trusted_base": ["Lean 4.33 kernel", "axioms: propext, Classical.choice, Quot.sound (Mathlib)",
-                             "hypothesis Lawful env (L0 BLS12-381 is a prime-order bilinear group with canonical codecs) — assumed, pinned by KATs and the correspondence run",
+                             ("hypothesis Lawful env (L0 BLS12-381 is a prime-order bilinear group with canonical codecs) — assumed, pinned by KATs and the correspondence run"
+                              if engine == "bbs" else
+                              "CL03 model over Int: rug/GMP semantics, SHA-256 and the primality oracle are modelled (IntArith specs proven in Lean); every random draw replayed from the recorded tape and checked against its contract"),
                              "correspondence check (differential, this run) ties ZkModel.L1 to the Rust code",
                              "rustc, bls12_381_plus, sha2, sha3, harness hbbs/hcl, verif_hooks"],
             "theorems": details,
